@@ -44,6 +44,52 @@ CHECKS = {
             "The closure loop of sort_classes is modelled and tied but the theorems are stated for the closed source it builds; "
             "`the emitted source compiles` is witnessed by real cffi builds (4 quick / 150 thorough), not proved.",
             "7/C14"),
+    "C02": ("Lean 4 proof: loop invariant of gen_method_offset by induction over the access path (executed statement IR + static "
+            "accumulator = documented address expression), for all indices, objects and memories at once; generator text tied by exact "
+            "string equality with _gen_c_api(), IR semantics tied by compiled-accessor calls through cffi; oracle: compiled vs Python accessor",
+            "Kernel-checked theorems over the Lean port of capi.py, which prints the accessor source from a five-form statement IR: "
+            "C02_addr (for EVERY list of path parts, every index tuple, every object address and every memory - all header words "
+            "at once - the offset computed by the emitted statements equals the documented layout's address expression docAddr), "
+            "C02_get_set_getp, C02_typeid_member, C02_len / C02_len_static (product of the documented dimensions), C02_text (the "
+            "printed offset code is the print of exactly those statements). The tie compares the model's text with the real "
+            "_gen_c_api() byte for byte on random types and the IR semantics with the real compiled accessors on real objects.",
+            "The C semantics of the printed statement forms is the trusted reading Stmt.exec, validated on every compiled accessor "
+            "call of each run; that docAddr is also the address the Python view uses is witnessed by the oracle (compiled vs "
+            "Python accessor on the same object), and for the layout model under C06.",
+            "7/C02"),
+    "C07": ("Lean 4 proof: pointwise-update semantics of the generated setter and the complete load list of every accessor by "
+            "induction over the path; tie as C02 plus whole-buffer diffs around real setter calls; ASan+UBSan stand-alone builds",
+            "Kernel-checked theorems: C07_set_exact (a generated setter changes exactly the value's bytes at the documented address "
+            "of the addressed element and no other byte of memory, for all paths/indices/objects/memories), C07_loads (the header "
+            "words read are exactly those the documented layout consults along the path), C07_accesses_get_set. The in-bounds "
+            "clause is PARTIAL: checked on the model's access list for every generated object and by sanitizer runs of the real "
+            "emitted source, not yet a theorem over all writer-produced objects.",
+            "Runtime not modelled: what the C compiler emits (witnessed by clang -fsanitize=address,undefined runs with the buffer "
+            "image flush against the end of an exactly sized heap block).",
+            "7/C07"),
+    "C15": ("Lean 4 proof: structural induction over a segmented source (slash-free literals + the four placeholders) showing the "
+            "four str.replace calls only re-render placeholders; line passes are the identity on annotation-free text; exact-text tie "
+            "with specialize_source on all four targets; per-source evaluation of the theorem's hypotheses by the driver",
+            "Kernel-checked theorems over the Lean model of specialize_source: C15_target_text (for every segmented annotation-free "
+            "source and every target the specialised text is the same segment list with each placeholder rendered by the target's "
+            "table - all literal text, i.e. the whole address computation, is identical on every target), C15_same_segments, "
+            "C15_tables (opencl renders gpuglmem as __global, ...), C15_no_placeholder_left. For every generated accessor API the "
+            "driver computes the theorem's hypotheses, so the theorem applies to that source.",
+            "Partial: that the generator puts the gpuglmem placeholder before EVERY pointer into object memory is checked by the "
+            "oracle on each generated API, not proved; real device compilers are absent (host compiler with the keywords defined "
+            "away).",
+            "7/C15"),
+    "C16": ("Lean 4 proof: equational characterisation of the two line passes (pass-through, only_for_context, include_file, "
+            "block shape) and of the launch semantics (CUDA grid*block threads filtered by the guard = range n); exact-text tie; "
+            "geometry taken from the real kernel classes; real CPU kernels and host-simulated GPU launches as oracle",
+            "Kernel-checked theorems: C16_passthrough(_lines), C16_only_for, C16_include, C16_block_shape, C16_nested_refused, "
+            "C16_cpu_same_block, and C16_once: for every n (incl. 0) and block size >= 1, with the geometry the contexts use, each "
+            "target executes the block body for exactly the indices 0..n-1, each once. The tie compares the exact output text / "
+            "exception class of the real specialize_source and the launch geometry of the real KernelCupy/KernelPyopencl.__call__.",
+            "Partial: what the for-statement, OpenMP runtime and device schedulers do is the trusted reading execIndices; witnessed "
+            "by real serial/OpenMP CPU kernels and host-simulated OpenCL/CUDA launches. A zero-sized GPU launch (n = 0) may be "
+            "rejected by a real driver: cannot be exhibited here.",
+            "7/C16"),
 }
 
 NOT_YET = {
